@@ -61,7 +61,16 @@ def r1(run):
     for b in run.facts.all_bodies():
         for c in q.live_calls(b, C.BATCH_INSERT):
             holders.add(run.facts.enclosing_fn(b))
-    run.ob("crate|primary-insert-holder", holders == {C.INSERT_FRAME}, "<crate>", "the only function inserting into the partitions is Store::insert_frame: %s" % sorted(holders))
+    run.ob("crate|primary-insert-holder", C.INSERT_FRAME in holders, "<crate>", "Store::insert_frame inserts into the partitions: %s" % sorted(holders))
+    # any other body that inserts (a writer helper spliced into it) must itself keep ephemeral frames out
+    for b in run.facts.all_bodies():
+        fn = run.facts.enclosing_fn(b)
+        if fn == C.INSERT_FRAME:
+            continue
+        for c in q.live_calls(b, C.BATCH_INSERT):
+            g = ephemeral_guards(b)
+            run.ob("%s|batch-insert|not-ephemeral" % fn, bool(g) and q.dominated(b, c.bb, via_edges=g), c.sp,
+                   "a partition insert outside Store::insert_frame is reached only through a `ttl != Ephemeral` edge", reason="ephemeral-may-be-stored")
     # every Ok return of append is preceded by the broadcast
     ab = C.body_or_fail(run, C.APPEND)
     sends = [c for c in q.live_calls(ab, C.BROADCAST_SEND) if C.frame_typed(c)]
@@ -243,4 +252,5 @@ RULES = [
     ("R-C09-4", "newest-N eviction: Skip<Rev<prefix>> with skip = keep (shared with R-C08-3)", c08.r3),
     ("R-C09-7", "GC requests have a consumer: Store::new launches the worker on the queue behind Store.gc_tx; Remove / CheckHeadTTL / Drain are each served and the worker keeps looping", r7),
     ("R-C09-5", "synthetic xs.threshold / xs.pulse frames are built Ephemeral", r5),
+    ("R-C09-8", "time:N frames expire exactly at created + N ms (expiry predicate, shared with R-C08-4)", lambda run: __import__("rules.C08", fromlist=["x"]).r4(run)),
 ]
